@@ -4,6 +4,7 @@ import (
 	"errors"
 	"io"
 	"net"
+	"os"
 	"sync"
 	"time"
 )
@@ -23,6 +24,8 @@ type memPipe struct {
 	total   int64 // bytes ever written
 	readN   int64 // bytes ever read
 	hold    bool  // reader side refuses to deliver (peer "stops reading")
+	wdl     time.Time   // write deadline (zero: none): a writer blocked on a full buffer gives up then
+	wdlT    *time.Timer // wakes blocked writers at the deadline
 }
 
 func newMemPipe() *memPipe {
@@ -53,6 +56,9 @@ func (p *memPipe) write(b []byte) (int, error) {
 		if p.capN > 0 {
 			room = p.capN - len(p.buf)
 			if room <= 0 {
+				if !p.wdl.IsZero() && !time.Now().Before(p.wdl) {
+					return n, os.ErrDeadlineExceeded
+				}
 				p.wparked++
 				p.cond.Wait()
 				p.wparked--
@@ -99,6 +105,28 @@ func (p *memPipe) read(b []byte) (int, error) {
 		p.cond.Wait()
 		p.parked--
 	}
+}
+
+func (p *memPipe) setWriteDeadline(t time.Time) {
+	p.mu.Lock()
+	p.wdl = t
+	if p.wdlT != nil {
+		p.wdlT.Stop()
+		p.wdlT = nil
+	}
+	if !t.IsZero() {
+		d := time.Until(t)
+		if d < 0 {
+			d = 0
+		}
+		p.wdlT = time.AfterFunc(d, func() {
+			p.mu.Lock()
+			p.cond.Broadcast()
+			p.mu.Unlock()
+		})
+	}
+	p.cond.Broadcast()
+	p.mu.Unlock()
 }
 
 func (p *memPipe) closeWrite() {
@@ -178,9 +206,9 @@ func (e *memEnd) Close() error {
 }
 func (e *memEnd) LocalAddr() net.Addr                { return memAddr(e.name) }
 func (e *memEnd) RemoteAddr() net.Addr               { return memAddr(e.name + "-peer") }
-func (e *memEnd) SetDeadline(t time.Time) error      { return nil }
+func (e *memEnd) SetDeadline(t time.Time) error      { e.w.setWriteDeadline(t); return nil }
 func (e *memEnd) SetReadDeadline(t time.Time) error  { return nil }
-func (e *memEnd) SetWriteDeadline(t time.Time) error { return nil }
+func (e *memEnd) SetWriteDeadline(t time.Time) error { e.w.setWriteDeadline(t); return nil }
 
 // newMemConn returns the two ends: a is the endpoint under test, b the scripted peer.
 // c2s carries bytes from b to a, s2c from a to b.
